@@ -43,7 +43,7 @@ func checkC16(p *Program, r *Reporter) {
 	// (a0) the instant at which the session generates a segment: a float time converted to whole
 	// milliseconds must be rounded up, or the generator is asked one fraction of a millisecond too early
 	// and the segment is skipped
-	r.Rule("E5-NOTRUNC", "segment availability instants in ms are rounded up, never truncated", 1)
+	r.Rule("E5-NOTRUNC", "segment availability instants in ms are rounded up, never truncated", 0)
 	if cat := p.mustFunc(r, pkgApp, "calcSegmentAvailabilityTime"); cat != nil {
 		for _, fn := range cluster(cat) {
 			for _, b := range fn.Blocks {
